@@ -61,7 +61,7 @@ func (e *env) lbInner() http.Handler {
 		}
 		beh, _ := strconv.Atoi(r.Header.Get("X-Beh"))
 		w.Header().Set("X-Rid", strconv.Itoa(rid))
-		for k, o := range namedBehaviours[beh%len(namedBehaviours)] {
+		for k, o := range loopbackBehaviours[beh%len(loopbackBehaviours)] {
 			if o.Op == "wh" {
 				w.WriteHeader(o.C)
 			} else {
@@ -113,8 +113,8 @@ func runLoopback(res *vh.Result, clients, reqs int) (n int, skipped string) {
 			for k := 0; k < reqs; k++ {
 				rid := 9000000 + ci*10000 + k + 1
 				sp := mkSpec(rid)
-				beh := rnd.IntN(len(namedBehaviours))
-				ops := namedBehaviours[beh]
+				beh := rnd.IntN(len(loopbackBehaviours))
+				ops := loopbackBehaviours[beh]
 				s := sent{rid: rid, beh: beh}
 				req, err := http.NewRequest(sp.method, srv.URL+sp.target, strings.NewReader(sp.body))
 				if err != nil {
@@ -181,7 +181,7 @@ func runLoopback(res *vh.Result, clients, reqs int) (n int, skipped string) {
 		for _, s := range list {
 			n++
 			sp := mkSpec(s.rid)
-			ops := namedBehaviours[s.beh]
+			ops := loopbackBehaviours[s.beh]
 			pr := append(s.problems, c.bad[s.rid]...)
 			if c.runs[s.rid] != 1 {
 				pr = append(pr, fmt.Sprintf("the inner handler ran %d times for request %d", c.runs[s.rid], s.rid))
